@@ -95,6 +95,10 @@ class ParFlow:
     def scenarios(self, r, quick=True):
         us = self.units()
         out = [("allok", {})]
+        if getattr(self, "big", False):
+            # failures in the middle of the collection (not the last element of any batch of consecutive elements)
+            el = [u[0] for u in us if u[2] == "elem"]
+            return out + [("err", {el[5]: "err"}), ("multi", {el[5]: "err", el[6]: "panic", el[200]: "err"})]
         cand = list(us)
         r.shuffle(cand)
         for (uid, he, kind, deps) in cand[: (6 if quick else 20)]:
@@ -175,6 +179,10 @@ class ParFlow:
                 else:
                     pre.append("m%d := map[string]E{%s}" % (k, ", ".join("\"k%d\": {S: \"k%d\"}" % (j, j) for j in range(it["n"]))))
                 f = fn(cp + ["key string", "v E"], it["err"], "x.Call(\"m%d#\"+key, 0, key, v.S)" % k)
+                if it.get("nan"):
+                    # float keys, one of them NaN (not equal to itself: the entry can be ranged over but not looked up)
+                    pre[-1] = "m%d := map[float64]E{%s}" % (k, ", ".join("%s: {S: \"k%d\"}" % ("NaN()" if j == 0 else "%d.5" % j, j) for j in range(it["n"])))
+                    f = fn(cp + ["key float64", "v E"], it["err"], "x.Call(\"m%d#\"+v.S, 0, v.S, v.S)" % k)
                 a = [arg(f), arg("m%d" % k)]
                 if it["end"]:
                     ep = ["ctx context.Context"] if it["endctx"] else []
@@ -203,7 +211,7 @@ class ParFlow:
 CORNERS = [
     # (kind, n, nil, index): empty and nil collections with an End hook, next to one task
     ("slice", 0, False, True), ("slice", 0, True, False), ("map", 0, False, False), ("map", 0, True, False),
-    ("slice", 1, False, True), ("map", 1, False, False),
+    ("slice", 1, False, True), ("map", 1, False, False), ("mapnan", 3, False, False),
 ]
 
 
@@ -211,11 +219,18 @@ def gen_pars(seed, n):
     r = random.Random(seed * 104729 + 10)
     pars = [ParFlow(i, r) for i in range(n)]
     # the corner cases are not left to chance: the first programs are overwritten with them
+    if n > len(CORNERS) + 2:
+        # a slice of several hundred elements under ContinueOnError: every element not downstream of a failure runs
+        p = pars[len(CORNERS)]
+        p.coe, p.generic, p.instr, p.emitters = True, False, False, 0
+        p.items = [dict(kind="slice", k=0, ctx=False, err=True, n=264, nil=False, end=False, endctx=False, enderr=False, index=True, named=False)]
+        p.big = True
     for i, (kind, cn, nil, index) in enumerate(CORNERS[:max(0, min(len(CORNERS), n - 2))]):
         p = pars[i]
         p.coe, p.generic = False, False
         p.items = [dict(kind="task", k=0, ctx=False, err=True, instr=False),
-                   dict(kind=kind, k=1, ctx=(i % 2 == 0), err=True, n=cn, nil=nil, end=True, endctx=(i % 2 == 1), enderr=True, index=index, named=False)]
+                   dict(kind=("map" if kind == "mapnan" else kind), k=1, ctx=(i % 2 == 0), err=True, n=cn, nil=nil, end=True, endctx=(i % 2 == 1), enderr=True,
+                        index=index, named=False, nan=(kind == "mapnan"))]
     return pars, r
 
 
@@ -229,5 +244,5 @@ def render_files(pars, per=4):
         for p in group:
             src.append(p.render())
         files["pars%02d.go" % (k // per)] = "\n".join(src)
-    files["partypes.go"] = "package gen\n\nimport \"strconv\"\n\ntype E struct{ S string }\n\ntype Elems []E\n\nfunc Itoa(i int) string { return strconv.Itoa(i) }\n"
+    files["partypes.go"] = "package gen\n\nimport (\n\t\"math\"\n\t\"strconv\"\n)\n\ntype E struct{ S string }\n\ntype Elems []E\n\nfunc Itoa(i int) string { return strconv.Itoa(i) }\n\nfunc NaN() float64 { return math.NaN() }\n"
     return files
